@@ -7,10 +7,13 @@ package main
 
 import (
 	"bytes"
+	"flag"
 	"fmt"
 	"net"
 	"os"
 	"strings"
+	"sync"
+	"time"
 
 	"hop.computer/hop/certs"
 	"hop.computer/hop/config"
@@ -30,6 +33,52 @@ type srvCfg struct {
 }
 
 var cfgs = []srvCfg{{"single-cert", false}, {"two-vhosts", false}, {"hidden-one-cert", true}, {"hidden-two-certs", true}}
+
+var seams = flag.String("seams", "", "source seams applied by the driver")
+
+func hasSeam(n string) bool {
+	for _, s := range strings.Split(*seams, ",") {
+		if s == n {
+			return true
+		}
+	}
+	return false
+}
+
+var listenMu sync.Mutex
+
+// startServer starts configuration ci in world w. With the hopserver-listen seam the two
+// multi-certificate configurations are built by the real hopserver.NewHopServer (its own
+// GetCertificate / GetCertList closures and client-verification policy) on a simulated socket;
+// otherwise by the mirrored closures of serverConfig.
+func (s *setupT) startServer(w *fix.World, ci int) (*fix.ServerEnd, error) {
+	multi := cfgs[ci].Name == "two-vhosts" || cfgs[ci].Name == "hidden-two-certs"
+	if !multi || !hasSeam("hopserver-listen") {
+		return w.StartServer(s.serverConfig(ci), s.std.ServerAdr)
+	}
+	std := s.std
+	sc := &config.ServerConfig{ListenAddress: "simulated", HandshakeTimeout: 24 * time.Hour, CACerts: []*certs.Certificate{std.PKI.Root},
+		Names: []config.NameConfig{
+			{Pattern: "*.b.example", Key: s.key2, Certificate: s.leaf2, Intermediate: std.PKI.Inter, KEMKey: s.kem2},
+			{Pattern: "srv.example", Key: std.SrvKey, Certificate: std.SrvLeaf, Intermediate: std.PKI.Inter, KEMKey: std.SrvKEM},
+		}}
+	if cfgs[ci].Hidden {
+		sc.HiddenModeVHostNames = []string{"x.b.example", "srv.example"}
+	}
+	listenMu.Lock()
+	defer listenMu.Unlock()
+	var conn *simnet.Conn
+	hopserver.VerifListen = func(string) (transport.UDPLike, error) {
+		conn = w.Net.Listen(std.ServerAdr, true)
+		return conn, nil
+	}
+	defer func() { hopserver.VerifListen = nil }()
+	hs, err := hopserver.NewHopServer(sc)
+	if err != nil {
+		return nil, err
+	}
+	return w.AdoptServer(hs.Server, conn, std.ServerAdr), nil
+}
 
 type setupT struct {
 	std   *fix.Std
@@ -98,6 +147,67 @@ type junk struct {
 }
 
 func (j junk) String() string { return fmt.Sprintf("%s.%s(%d,%d)", j.Base, j.Op, j.A, j.B) }
+
+// Stimuli that need valid MACs are produced by an otherwise honest client: Base "sni" asks for
+// an unusual server name (index A into sniNames), Base "clientcert" presents altered raw
+// certificate bytes (index A into certMods) through the client-certs seam.
+var sniNames = []certs.Name{
+	{Type: certs.TypeDNSName, Label: []byte("nomatch.example")}, {Type: certs.TypeRaw, Label: []byte("nomatch")},
+	{Type: 0x7f, Label: []byte("srv.example")}, {Type: 0x7f, Label: []byte("nomatch")}, {Type: 0xff, Label: []byte{}},
+	{Type: certs.TypeDNSName, Label: []byte{}}, {Type: certs.TypeDNSName, Label: bytes.Repeat([]byte("a"), 252)},
+	{Type: certs.TypeDNSName, Label: []byte("*")}, {Type: certs.TypeDNSName, Label: []byte("**a*")}, {Type: certs.TypeDNSName, Label: []byte("x.b.example")},
+	{Type: certs.TypeIPv4Address, Label: []byte{10, 0, 0, 1}}, {Type: certs.TypeIPv4Address, Label: []byte{1, 2, 3}}, {Type: certs.TypeIPv6Address, Label: make([]byte, 16)},
+	{Type: certs.TypeRaw, Label: []byte{0, 0xff, 0xfe}},
+}
+
+type certMod struct {
+	name string
+	f    func(leaf, inter []byte) ([]byte, []byte)
+}
+
+var certMods = func() []certMod {
+	var m []certMod
+	cut := func(n int) certMod {
+		return certMod{fmt.Sprintf("leaf-cut-%d", n), func(l, i []byte) ([]byte, []byte) {
+			if n < 0 {
+				return l[:len(l)+n], i
+			}
+			if n > len(l) {
+				return l, i
+			}
+			return l[:n], i
+		}}
+	}
+	// field boundaries of a certificate: header 4, times 12/20, key 52, parent 84, chunk length 86, then names, signature
+	for _, n := range []int{1, 2, 4, 5, 12, 20, 51, 52, 84, 85, 86, 87, 89, -64, -65, -1} {
+		m = append(m, cut(n))
+	}
+	m = append(m, certMod{"leaf-trailing-byte", func(l, i []byte) ([]byte, []byte) { return append(append([]byte{}, l...), 0), i }},
+		certMod{"leaf-zeros-600", func(l, i []byte) ([]byte, []byte) { return make([]byte, 600), i }},
+		certMod{"leaf-chunklen-ffff", func(l, i []byte) ([]byte, []byte) {
+			x := append([]byte{}, l...)
+			x[84], x[85] = 0xff, 0xff
+			return x, i
+		}},
+		certMod{"leaf-chunklen-0", func(l, i []byte) ([]byte, []byte) {
+			x := append([]byte{}, l...)
+			x[84], x[85] = 0, 0
+			return x, i
+		}},
+		certMod{"leaf-type-0", func(l, i []byte) ([]byte, []byte) {
+			x := append([]byte{}, l...)
+			x[1] = 0
+			return x, i
+		}},
+		certMod{"inter-cut-1", func(l, i []byte) ([]byte, []byte) { return l, i[:1] }},
+		certMod{"inter-cut-4", func(l, i []byte) ([]byte, []byte) { return l, i[:4] }},
+		certMod{"inter-cut-84", func(l, i []byte) ([]byte, []byte) { return l, i[:84] }},
+		certMod{"inter-is-leaf", func(l, i []byte) ([]byte, []byte) { return l, l }},
+		certMod{"leaf-is-inter", func(l, i []byte) ([]byte, []byte) { return i, i }},
+		certMod{"inter-zeros-1", func(l, i []byte) ([]byte, []byte) { return l, []byte{0} }},
+	)
+	return m
+}()
 
 // capture names -> datagram bytes of this world's own traffic
 type capture map[string][]byte
@@ -271,24 +381,26 @@ type caseT struct {
 
 // live is one world in a given state.
 type live struct {
-	g        group
-	w        *fix.World
-	srv      *fix.ServerEnd
-	E, X, O  *fix.ClientEnd // established, mid-handshake, other established
-	hE       *transport.Handle
-	cap      capture
-	sidE, sO [4]byte
-	count    int
-	applied  []junk
+	g            group
+	w            *fix.World
+	srv          *fix.ServerEnd
+	E, X, O      *fix.ClientEnd // established, mid-handshake, other established
+	hE           *transport.Handle
+	cap          capture
+	sidE, sO     [4]byte
+	count        int
+	applied      []junk
+	st           *setupT
+	clientPanics []string
 }
 
 var third = simnet.Addr("10.9.9.9", 999)
 
 func build(st *setupT, g group) (*live, error) {
-	l := &live{g: g, w: fix.NewWorld(), cap: capture{}}
+	l := &live{g: g, w: fix.NewWorld(), cap: capture{}, st: st}
 	hidden := cfgs[g.Cfg].Hidden
 	var err error
-	l.srv, err = l.w.StartServer(st.serverConfig(g.Cfg), st.std.ServerAdr)
+	l.srv, err = st.startServer(l.w, g.Cfg)
 	if err != nil {
 		return nil, err
 	}
@@ -342,7 +454,7 @@ func build(st *setupT, g group) (*live, error) {
 	} else {
 		// captured traffic comes from a sacrificial world with the same configuration
 		sw := fix.NewWorld()
-		ssrv, err := sw.StartServer(st.serverConfig(g.Cfg), st.std.ServerAdr)
+		ssrv, err := st.startServer(sw, g.Cfg)
 		if err != nil {
 			return nil, err
 		}
@@ -391,7 +503,33 @@ func build(st *setupT, g group) (*live, error) {
 	return l, nil
 }
 
+// driven runs an otherwise honest client that carries the stimulus inside validly MACed
+// handshake messages.
+func (l *live) driven(st *setupT, j junk) error {
+	hidden := cfgs[l.g.Cfg].Hidden
+	cfg := st.std.ClientConfig(hidden)
+	switch j.Base {
+	case "sni":
+		cfg.Verify.Name = sniNames[j.A]
+	case "clientcert":
+		transport.VerifClientCerts = certMods[j.A].f
+		defer func() { transport.VerifClientCerts = nil }()
+	}
+	l.applied = append(l.applied, j)
+	l.count++
+	c := l.w.NewClient(cfg, simnet.Addr("10.0.0.8", 6000+l.count%1000), st.std.ServerAdr)
+	c.Start()
+	err := l.w.Pump(nil)
+	if p := c.Panicked(); p != nil {
+		l.clientPanics = append(l.clientPanics, fmt.Sprintf("%s: %v", j, p))
+	}
+	return err
+}
+
 func (l *live) deliver(j junk) error {
+	if j.Base == "sni" || j.Base == "clientcert" {
+		return l.driven(l.st, j)
+	}
 	b := j.build(l.cap, l.sidE, l.sO)
 	if b == nil {
 		return nil
@@ -474,6 +612,9 @@ func (l *live) verify(st *setupT) []string {
 			ps = append(ps, fmt.Sprintf("client handshake panicked on junk: %v", p))
 		}
 	}
+	for _, p := range l.clientPanics {
+		ps = append(ps, "the driving client panicked: "+p)
+	}
 	// a fresh honest handshake still completes
 	for d := l.w.Net.Pop(); d != nil; d = l.w.Net.Pop() {
 	}
@@ -548,6 +689,18 @@ func main() {
 				for _, j := range alpha {
 					cases = append(cases, caseT{G: group{ci, t, thirdAddr}, J: []junk{j}})
 				}
+				if t == "server-est" && !thirdAddr {
+					if !cfgs[ci].Hidden {
+						for k := range sniNames {
+							cases = append(cases, caseT{G: group{ci, t, false}, J: []junk{{Base: "sni", Op: "name", A: k}}})
+						}
+					}
+					if hasSeam("client-certs") {
+						for k := range certMods {
+							cases = append(cases, caseT{G: group{ci, t, false}, J: []junk{{Base: "clientcert", Op: certMods[k].name, A: k}}})
+						}
+					}
+				}
 			}
 		}
 	}
@@ -576,7 +729,7 @@ func main() {
 		}
 		r.Finish()
 	}
-	r.SetRule(fmt.Sprintf("junk datagrams derived from this world's own captured valid datagrams (bases %v / hidden %v): truncations (quick: first 60, last 50, every 64th and around fixed-size field ends; thorough: every length), header byte and 16-bit length-field mutations, session id {live, other live, unknown}, counters {0,1,2,2^63-1,2^63,2^64-1}, all 256 type bytes on four bases, valid public header + zero bodies of length 0..44 for 7 type values, raw datagrams of 17 lengths x 2 fills x 10 leading bytes; delivered to the server in states {idle, mid-handshake, established, established+closed handle} from the peer's and a third address, and to clients {awaiting first reply, awaiting server auth, established}; 4 server configurations (1 certificate, 2 virtual hosts through hopserver.NewVirtualHosts/Match/glob, hidden with 1 and 2 certificates). Junk of one group is delivered in batches of 16 to one world (so each datagram also meets a server that has already seen junk), in crash-isolating worker processes with a per-datagram journal. Oracle after each batch: process alive, established session present + probe both ways, fresh honest handshake completes and carries data; a failing batch is re-run datagram by datagram. distinct_nontrivial = distinct (group, junk) cases executed.", discBases, hidBases))
+	r.SetRule(fmt.Sprintf("junk datagrams derived from this world's own captured valid datagrams (bases %v / hidden %v): truncations (quick: first 60, last 50, every 64th and around fixed-size field ends; thorough: every length), header byte and 16-bit length-field mutations, session id {live, other live, unknown}, counters {0,1,2,2^63-1,2^63,2^64-1}, all 256 type bytes on four bases, valid public header + zero bodies of length 0..44 for 7 type values, raw datagrams of 17 lengths x 2 fills x 10 leading bytes; plus, carried inside validly MACed messages of an otherwise honest client: 14 unusual server names (unknown id types, empty, 252 bytes, glob metacharacters, non-matching, IP types) and 27 altered client certificate byte strings (cuts at every field boundary, trailing byte, zeros, chunk length 0/ffff, swapped leaf/intermediate) through the client-certs seam; delivered to the server in states {idle, mid-handshake, established, established+closed handle} from the peer's and a third address, and to clients {awaiting first reply, awaiting server auth, established}; 4 server configurations (1 certificate, 2 virtual hosts through hopserver.NewVirtualHosts/Match/glob, hidden with 1 and 2 certificates). Junk of one group is delivered in batches of 16 to one world (so each datagram also meets a server that has already seen junk), in crash-isolating worker processes with a per-datagram journal. Oracle after each batch: process alive, established session present + probe both ways, fresh honest handshake completes and carries data; a failing batch is re-run datagram by datagram. distinct_nontrivial = distinct (group, junk) cases executed.", discBases, hidBases))
 	const B = 16
 	var cur *live
 	iTo := 0
@@ -660,6 +813,11 @@ func main() {
 	})
 	r.Set("cases", len(cases))
 	r.Set("batch", B)
+	r.Set("real_hopserver_wiring", hasSeam("hopserver-listen"))
+	r.Set("client_certs_seam", hasSeam("client-certs"))
+	if !hasSeam("client-certs") {
+		r.Cap("client-certs seam did not apply: altered client certificate bytes not exercised")
+	}
 	r.Assume("the adversary does not hold session keys; junk is generated from the stated structured alphabet, not from all 2^(8*65535) byte strings")
 	r.Finish()
 }
